@@ -7,7 +7,7 @@ import re
 NAMES = ['A', 'B', 'C', 'D']
 LENS = [10, 20]
 MD5S = ['', '', '00112233445566778899aabbccddeeff', 'ffeeddccbbaa99887766554433221100']
-SMALL = ['', '', 'x', 'y']
+SMALL = ['', '', 'x', 'y', 'p q ']
 # canonical URIs (fixed points of the header parser's normalisation)
 URIS = ['', '', '', 'http://h/p', 'ftp://h/q', 'file:///d/f']
 # URI field values for text lines: (raw, canonical or None when the line is an error)
@@ -277,7 +277,7 @@ def gen_history(rng, maxops):
                 so, go = 0, 0
             ops.append(dict(op=o, h=pick(nh), vn=vn, so=so, go=go))
         elif o == 'addco':
-            ops.append(dict(op=o, h=pick(nh), text=rng.choice(['hello', '', 'a b', 'tab\there', 'x\ty\tz', '@CO'])))
+            ops.append(dict(op=o, h=pick(nh), text=rng.choice(['hello', '', 'a b', 'tab\there', 'x\ty\tz', '@CO', 'ends in space '])))
         elif o in ('cloneref',):
             ops.append(dict(op=o, r=pick(nr))); nr += 1
         elif o == 'clonerg':
